@@ -311,6 +311,7 @@ impl Cfg {
     /// Filter length in input frames (sinc: rounded up to a multiple of 8; fast: 8).
     pub fn filter_len(&self) -> usize {
         match self.kind {
+            Kind::SI | Kind::SO if self.kernel == Kernel::Probe => self.sinc_len,
             Kind::SI | Kind::SO => 8 * ((self.sinc_len + 7) / 8),
             Kind::FI | Kind::FO => 8,
             _ => 0,
@@ -443,7 +444,8 @@ impl Cfg {
             self.f_cutoff * self.ratio as f32
         };
         Ok(match self.kernel {
-            Kernel::Probe => Box::new(IndexProbe::new(sinc_len, self.oversampling)),
+            // a custom interpolator may have any length: the probe keeps the configured one
+            Kernel::Probe => Box::new(IndexProbe::new(self.sinc_len, self.oversampling)),
             Kernel::Scalar => Box::new(ScalarInterpolator::<T>::new(
                 sinc_len,
                 self.oversampling,
